@@ -150,3 +150,49 @@ Section Cfb8.
     call_fn X cfb8__decrypt__IvState__Decryptor__iv_state [self] = Some (VBlk (cfb8_iv_state st), [self]).
   Proof. run_fn. reflexivity. Qed.
 End Cfb8.
+
+(* ---- C03 over the translated source: the whole byte sequence ----------------------------------------- *)
+From BM Require Import BlockModes_proofs Spec.
+Section Cfb8Source.
+  Variable C : cipher.
+  Variable n : nat.                                   (* register length = the cipher's block size, >= 1 *)
+  Hypothesis n_pos : 1 <= n.
+  Hypothesis E_len : forall x, length x = n -> length (c_E C x) = n.
+  Let X := bctx C [] [].
+  Definition src_cfb8_enc_step (iv : block) (c : cell) : option (block * cell) :=
+    match call_fn X cfb8__encrypt__BlockModeEncBackend__Backend__encrypt_block [be_self iv; VCell c] with
+    | Some (VUnit, [VStruct _ [("iv", VBlk iv'); _]; VCell c']) => Some (iv', c') | _ => None end.
+  Definition src_cfb8_dec_step (iv : block) (c : cell) : option (block * cell) :=
+    match call_fn X cfb8__decrypt__BlockModeDecBackend__Backend__decrypt_block [be_self iv; VCell c] with
+    | Some (VUnit, [VStruct _ [("iv", VBlk iv'); _]; VCell c']) => Some (iv', c') | _ => None end.
+
+  Lemma shift_len (st r : list N) : length st = n -> length r = 1 -> length (skipn 1 st ++ r) = n.
+  Proof. intros H1 H2. rewrite app_length, skipn_length. lia. Qed.
+
+  Theorem C03_cfb8_enc_source s cs : length s = n -> Forall (fun c => length (rd_in c) = 1) cs ->
+    fold_src src_cfb8_enc_step s cs
+    = Some (cfb8_breg s (cfb8_enc_bspec (c_E C) s (map rd_in cs)), map2 wr_out cs (cfb8_enc_bspec (c_E C) s (map rd_in cs))).
+  Proof.
+    intros Hs Hcs.
+    rewrite (fold_src_ok src_cfb8_enc_step (cfb8_enc_block C) (fun st => length st = n) (fun c => length (rd_in c) = 1)); auto.
+    - now rewrite cfb8_enc_fold.
+    - intros st c Hst Hc. unfold src_cfb8_enc_step, X.
+      assert (HEl : length (c_E C st) = n) by (apply E_len; auto).
+      rewrite (tie_cfb8_encrypt_block C st c) by lia.
+      unfold cfb8_enc_block. cbn [fst]. split; [reflexivity|]. apply shift_len; auto.
+      unfold rd_out, xor_in2out, wr_out; cbn [cout]. rewrite firstn_length, xorb_length, firstn_length. lia.
+  Qed.
+
+  Theorem C03_cfb8_dec_source s cs : length s = n -> Forall (fun c => length (rd_in c) = 1) cs ->
+    fold_src src_cfb8_dec_step s cs
+    = Some (cfb8_breg s (map rd_in cs), map2 wr_out cs (cfb8_dec_bspec (c_E C) s (map rd_in cs))).
+  Proof.
+    intros Hs Hcs.
+    rewrite (fold_src_ok src_cfb8_dec_step (cfb8_dec_block C) (fun st => length st = n) (fun c => length (rd_in c) = 1)); auto.
+    - now rewrite cfb8_dec_fold.
+    - intros st c Hst Hc. unfold src_cfb8_dec_step, X.
+      assert (HEl : length (c_E C st) = n) by (apply E_len; auto).
+      rewrite (tie_cfb8_decrypt_block C st c) by lia.
+      unfold cfb8_dec_block. cbn [fst]. split; [reflexivity|]. apply shift_len; auto. rewrite firstn_length. lia.
+  Qed.
+End Cfb8Source.
